@@ -344,7 +344,7 @@ def simplify(case):
         yield c
 
 
-LAWS = ["noise", "noise", "ramp", "peak", "peakpos", "bump", "negative", "large", "ties"]
+LAWS = ["noise", "noise", "ramp", "peak", "peakpos", "bump", "negative", "large", "ties", "twolevel", "twolevel"]
 
 
 def run_shard(ctx):
